@@ -1626,3 +1626,9 @@ mut("x-c17-lazy-limit-from-buffer-size", "C17", "src/protocol/vars.rs",
     """                    max_conns.get_or_insert_with(|| config.max_conns.to_compact_string())""",
     """                    max_conns.get_or_insert_with(|| config.buffer_size.to_compact_string())""",
     "R17.5/write_response/values", "the lazily formatted limit is the buffer size, not max_conns", base="z5-r5")
+mut("x-c17-epilogue-rtype-never-patched", "C17", "src/protocol/body.rs",
+    """        rec.rtype = s;
+""",
+    """        let _ = s;
+""",
+    "R17.4/epilogue-language", "every stream end header of the epilogue carries the placeholder type (header built once before the loop)", base="z5-r4")
